@@ -5,7 +5,7 @@ import re
 from .node import Node
 from ..datatypes import Type, NumberType, IntegerType, FloatType, StringType, BooleanType
 from ..environment import Environment
-from ..settings import Keyword, Sign, EnvType
+from ..settings import Keyword, Sign, EnvType, Numeric
 
 class BaseNode(Node):
     
@@ -202,7 +202,33 @@ class BaseNode(Node):
         if isinstance(nodes, str):   # block import
             node.value_raw = nodes
         else:                        # node import
-            node.value_raw = nodes[0].value_raw
+            if isinstance(nodes[0].value, Type):
+                # take the current value of the referenced node (after all its modifications)
+                value = nodes[0].value.value
+                if node.value_slice and value is not None:
+                    value = self.slice_value(list(node.value_slice), value)
+                    node.value_slice = None
+                    if not node.dimension and not np.isscalar(value):
+                        raise Exception("Array value set to scalar node:",node.code,value)
+                node.value_raw = self.raw_value(value, isinstance(nodes[0].value, IntegerType))
+            else:
+                node.value_raw = nodes[0].value_raw
             if not node.units_raw:
                 node.units_raw = nodes[0].units_raw
+
+    def raw_value(self, value, integer=False):
+        """ Write a value in the same form as it would be given in the code
+        """
+        if isinstance(value, np.ndarray):
+            value = value.tolist()
+        if value is None:
+            return Keyword.NONE
+        elif isinstance(value, (list, tuple)):
+            return json.dumps(value)
+        elif isinstance(value, (bool, np.bool_)):
+            return Keyword.TRUE if value else Keyword.FALSE
+        elif integer and isinstance(value, float) and np.isclose(value, np.round(value), rtol=Numeric.PRECISION):
+            return str(int(np.round(value)))   # integer value converted from another unit
+        else:
+            return str(value)
         
